@@ -22,6 +22,8 @@ pub fn unlog_last() {
 }
 
 pub trait Elem: Sized {
+    /// false for plain data without drop glue: its destructor cannot be observed (only the allocator can tell whether its box was released)
+    const HAS_DROP: bool = true;
     fn mk(v: i64) -> Self;
     fn val(&self) -> i64;
     /// what the model must be fed for this value (ZST collapses everything to 0)
@@ -78,3 +80,14 @@ impl Elem for Tok {
 }
 impl Drop for Tok { fn drop(&mut self) { log_drop(*self.0) } }
 impl Clone for Tok { fn clone(&self) -> Self { Tok(Box::new(*self.0)) } }
+
+/// plain 8-byte data WITHOUT drop glue
+#[derive(Clone, Copy)]
+pub struct P64(pub u64);
+impl Elem for P64 { const HAS_DROP: bool = false; fn mk(v: i64) -> Self { P64(v as u64) } fn val(&self) -> i64 { self.0 as i64 } }
+
+/// a plain 24-byte struct WITHOUT drop glue
+#[derive(Clone, Copy)]
+#[repr(C)]
+pub struct P24(pub u8, pub u64, pub u16);
+impl Elem for P24 { const HAS_DROP: bool = false; fn mk(v: i64) -> Self { P24(v as u8, v as u64, (v >> 3) as u16) } fn val(&self) -> i64 { self.1 as i64 } }
